@@ -1,17 +1,62 @@
 package main
 
 import (
+	"flag"
 	"fmt"
-	"golang.org/x/tools/go/packages"
-	"golang.org/x/tools/go/ssa"
-	"golang.org/x/tools/go/ssa/ssautil"
+	"os"
+	"strings"
 )
 
 func main() {
-	cfg := &packages.Config{Mode: packages.LoadAllSyntax, Dir: "/repo"}
-	pkgs, err := packages.Load(cfg, ".")
-	fmt.Println(len(pkgs), err)
-	prog, sp := ssautil.AllPackages(pkgs, ssa.InstantiateGenerics)
-	prog.Build()
-	fmt.Println(sp[0])
+	prop := flag.String("prop", "", "property id")
+	tier := flag.String("tier", "quick", "quick|thorough")
+	dump := flag.String("dump", "", "dump summaries of functions whose name contains this string")
+	flag.Parse()
+	_ = prop
+	_ = tier
+	dir := os.Getenv("VERIF_REPO")
+	if dir == "" {
+		dir = "/repo"
+	}
+	w, err := loadWorld(dir, "amd64")
+	if err != nil {
+		fmt.Println("LOAD ERROR:", err)
+		os.Exit(2)
+	}
+	if *dump != "" {
+		for _, fn := range w.sortedFuncs() {
+			if strings.ReplaceAll(fn.String(), w.Pkg.PkgPath+".", "") != *dump {
+				continue
+			}
+			dumpSummary(w, w.Interp.Run(fn))
+		}
+	}
+}
+
+func dumpSummary(w *World, s *Summary) {
+	fmt.Printf("=== %s: %d outcomes\n", s.Fn, len(s.Outcomes))
+	for i, o := range s.Outcomes {
+		kind := map[OutKind]string{ORet: "return", OPanic: "panic", OBack: "back"}[o.Kind]
+		fmt.Printf("--- path %d: %s", i, kind)
+		if o.Kind == ORet && o.Ret != nil {
+			if t, ok := o.Ret.(*Term); ok {
+				fmt.Printf(" %s   [canon: %s]", pretty(t), pretty(canon(t)))
+			} else {
+				fmt.Printf(" %s", valString(o.Ret))
+			}
+		}
+		if o.Kind == OPanic {
+			fmt.Printf(" %s", valString(o.PanicVal))
+		}
+		fmt.Println()
+		fmt.Printf("    facts: %s\n", o.St.facts)
+		for _, e := range o.St.effects {
+			fmt.Printf("    eff: %s  @%s\n", e, w.Prog.Fset.Position(e.Pos))
+		}
+		for ob, v := range o.St.mem {
+			if ob.Kind == OFresh {
+				fmt.Printf("    mem: %s = %s\n", ob.Name, valString(v))
+			}
+		}
+	}
 }
